@@ -380,18 +380,18 @@ def _classify_project(c: Ctx) -> Tuple:
                          validate_schema)
     texts = []
     for p in c.schema_files():
-        t = open(p, encoding="utf-8", errors="replace").read()
         try:
+            t = open(p, encoding="utf-8").read()      # GraphQL source text is Unicode: a file that is not UTF-8 has no parse
             parse(t)
-        except GraphQLSyntaxError:
+        except (GraphQLSyntaxError, UnicodeDecodeError):
             return ("invalid", ("InvalidGraphqlSyntax",), os.path.basename(p))
         texts.append(t)
     qtexts = []
     for p in c.query_files():
-        t = open(p, encoding="utf-8", errors="replace").read()
         try:
+            t = open(p, encoding="utf-8").read()      # GraphQL source text is Unicode: a file that is not UTF-8 has no parse
             parse(t)
-        except GraphQLSyntaxError:
+        except (GraphQLSyntaxError, UnicodeDecodeError):
             return ("invalid", ("InvalidGraphqlSyntax",), os.path.basename(p))
         qtexts.append(t)
     sdl = "\n".join(texts)
@@ -446,6 +446,16 @@ def _mutate_file(c: Ctx, files, how):
         data = data[:i] + [b"\x00\xff{", b"%%%", b"}}}", b"\"unterminated", b"type type"][c.ch.draw("src.garb", 5)] + data[i:]
     elif how == "empty":
         data = b""
+    elif how == "non_utf8_comment":
+        # bytes that are not UTF-8 where the grammar does not care (a comment): still not a readable GraphQL document
+        data = data + b"\n# caf\xe9 cr\xe8me - saved as latin-1\n"
+    elif how == "non_utf8_description":
+        i = data.find(b"type ")
+        if i < 0:
+            i = data.find(b"query ")
+        if i < 0:
+            return "skip"
+        data = (data[:i] + b'"""d\xe9scription en latin-1"""\n' + data[i:]) if data[i:i + 5] == b"type " else (data + b"\n# \xff\xfe\n")
     with open(p, "wb") as f:
         f.write(data)
     c.note = "%s %s" % (how, os.path.relpath(p, c.root))
@@ -692,6 +702,10 @@ def _ast_mutation(rule):
             from graphql import BooleanValueNode
             d_ = DirectiveNode(name=name("include"), arguments=(ArgumentNode(name=name("if"), value=BooleanValueNode(value=True)),))
             fields[0].directives = tuple(fields[0].directives or ()) + (d_, d_)
+        elif rule == "many_errors":
+            # more errors than graphql-core reports (it stops after 100 and appends a marker without location)
+            first.selection_set.selections = tuple(first.selection_set.selections) + tuple(
+                FieldNode(name=name("zzUnknownField%d" % i_)) for i_ in range(130))
         elif rule == "duplicate_argument":
             withargs = [f for f in fields if f.arguments]
             if not withargs:
@@ -712,7 +726,8 @@ OP_RULES = ["unknown_field", "leaf_with_selection", "object_without_selection", 
             "wrong_literal_type", "conflicting_fields", "duplicate_operation_name", "duplicate_fragment_name",
             "fragment_unknown_type", "fragment_on_scalar", "fragment_cycle", "unknown_fragment_spread",
             "missing_required_argument", "variable_in_wrong_position", "executable_definitions", "single_field_subscription",
-            "variable_not_input_type", "impossible_fragment_spread", "duplicate_variable", "duplicate_directive", "duplicate_argument"]
+            "variable_not_input_type", "impossible_fragment_spread", "duplicate_variable", "duplicate_directive", "duplicate_argument",
+            "many_errors"]
 
 FAULTS: Dict[str, Callable] = {
     "control:no_fault": f_no_fault, "control:unknown_keys": f_unknown_keys, "control:unknown_lookalike_keys": f_unknown_lookalike_keys,
@@ -737,7 +752,7 @@ for _s in NAME_SETTINGS_CLIENT + NAME_SETTINGS_SCHEMA:
     for _b in BAD_NAMES:
         FAULTS["config:name:%s:%s" % (_s, _b)] = f_name(_s, _b)
 for _w in ("schema", "queries"):
-    for _h in ("truncate", "drop_brace", "garbage", "empty"):
+    for _h in ("truncate", "drop_brace", "garbage", "empty", "non_utf8_comment", "non_utf8_description"):
         FAULTS["syntax:%s:%s" % (_w, _h)] = f_src(_w, _h)
     FAULTS["syntax:%s:split_across_files" % _w] = f_split_across_files(_w)
 for _r in SCHEMA_MUTATIONS:
@@ -907,8 +922,14 @@ def run_case(case, ch: Choices) -> RunResult:
                 os.rmdir(out_dir)
                 res.bump("prior.absent_parent_applied")
         before = _project_snapshot(root)
+        proc_env = None
+        if fault_name in ("control:deprecated_section", "control:comments_boolean") and ch.chance("env.warnings_as_errors", 1, 2):
+            # the user runs python with deprecation warnings turned into errors: the tool's own deprecation notices about a still
+            # accepted configuration spelling must not reject that configuration
+            proc_env = {"PYTHONWARNINGS": "error::DeprecationWarning"}
+            res.bump("env.deprecation_warnings_as_errors")
         r = genrun.run_child(root, ctx.argv, mat["targets"], env=ctx.env, env_unset=ctx.env_unset, pre_runs=pre_runs,
-                             timeout=90 if not pre_runs else 200)
+                             timeout=90 if not pre_runs else 200, proc_env=proc_env)
         if r.get("harness_failure"):
             raise RuntimeError("child failed: %s" % r.get("child_stderr"))
         after = _project_snapshot(root)
